@@ -72,11 +72,17 @@ def build_case(cid, rng, dynamic, force_async=False, no_send=False, probes=False
     L.append(t.source())
     ntargets = rng.choice([2, 2, 3])
     targets = ["Target%s" % "ABC"[k] for k in range(ntargets)]
+    if rng.random() < 0.3:
+        # target types written as paths, all with the same last segment (and one plain `Target` in scope)
+        targets = ["ta::Target", "tb::Target", "Target"][:ntargets] if ntargets == 3 else ["ta::Target", "Target"]
+        rng.shuffle(targets)
+        L.append("pub mod ta { pub struct Target; } pub mod tb { pub struct Target; }")
     nested_by_target = {}
     for tname in targets:
-        L.append("pub struct %s;" % tname)
+        if "::" not in tname:
+            L.append("pub struct %s;" % tname)
         at = (t.async_trait + "\n") if t.async_trait else ""
-        L.append("#[::entrait::entrait%s] /*@impl_%s*/\n%simpl TrImpl for %s {" % ("(ref)" if dynamic else "", tname, at, tname))
+        L.append("#[::entrait::entrait%s] /*@impl_%s*/\n%simpl TrImpl for %s {" % ("(ref)" if dynamic else "", tname.replace("::", "_"), at, tname))
         for m in t.methods:
             k = rng.randint(0, len(helpers))
             hs = rng.sample(helpers, k)
